@@ -331,6 +331,30 @@ impl Classes {
     }
 }
 
+/// `toks[i]` is '(' : does its parenthesis group hold a comma on its own level?  (A binary
+/// operator in prefix position directly followed by such a group is the call form of C08,
+/// also for an operator that doubles as a sign.)
+pub fn group_has_comma(toks: &[Tok], i: usize) -> bool {
+    if !matches!(toks.get(i), Some(Tok::LPar)) {
+        return false;
+    }
+    let mut depth = 0i64;
+    for tk in &toks[i..] {
+        match tk {
+            Tok::LPar => depth += 1,
+            Tok::RPar => {
+                depth -= 1;
+                if depth == 0 {
+                    return false;
+                }
+            }
+            Tok::Comma if depth == 1 => return true,
+            _ => {}
+        }
+    }
+    false
+}
+
 /// the four token-level malformedness classes named by C07 (the fifth - unknown character
 /// sequence - is the lexer's error)
 pub fn classify(toks: &[Tok], t: &Table) -> Classes {
@@ -371,7 +395,7 @@ pub fn classify(toks: &[Tok], t: &Table) -> Classes {
                     } else {
                         // a sign is unary exactly at the start, after an operator, after '(' (or ',')
                         let prev = if i == 0 { None } else { Some(&toks[i - 1]) };
-                        if matches!(prev, Some(Tok::Lit(_)) | Some(Tok::Var(_)) | Some(Tok::Const(_)) | Some(Tok::RPar)) {
+                        if matches!(prev, Some(Tok::Lit(_)) | Some(Tok::Var(_)) | Some(Tok::Const(_)) | Some(Tok::RPar)) || group_has_comma(toks, i + 1) {
                             binops += 1;
                         }
                     }
@@ -434,7 +458,7 @@ impl<'a> P<'a> {
             }
             Tok::Op(k) => {
                 let o = &self.t.ops[*k as usize];
-                if o.unary {
+                if o.unary && !(o.bin.is_some() && group_has_comma(self.toks, self.p)) {
                     let a = self.unary()?;
                     Ok(Tree::un(*k, a))
                 } else if o.bin.is_some() {
@@ -557,7 +581,7 @@ impl<'a> Renderer<'a> {
             Tree::Un(_, a) => !matches!(**a, Tree::Bin(..)),
             Tree::Bin(k, _, _) => {
                 let o = &self.t.ops[*k as usize];
-                o.is_alpha() && !o.unary
+                self.t.call_all || (o.is_alpha() && !o.unary)
             }
         }
     }
@@ -620,7 +644,7 @@ impl<'a> Renderer<'a> {
             Tree::Bin(k, a, b) => {
                 let o = &self.t.ops[*k as usize];
                 let (p, _) = o.bin.unwrap();
-                if alt && o.is_alpha() && !o.unary {
+                if alt && (self.t.call_all || (o.is_alpha() && !o.unary)) {
                     out.push(o.name.to_string());
                     out.push("(".into());
                     self.go(a, choices, pos, out);
